@@ -278,11 +278,11 @@ def check_helpers(ctx, tu):
         ctx.ob('C01.H', f, 'operator bool is !empty()', ok)
     for nm in ('forEach', 'forEachIf'):
         for f in tu.fns_named('CallbackListBase::' + nm):
-            lams = tu.lambdas_of.get(f.id, [])
             calls = [n for n in f.calls() if (f.callee_key(n) or '') == 'CallbackListBase::doForEachIf']
-            ok = len(lams) == 1 and len(calls) == 1
+            # the per-node visitor handed to doForEachIf: a lambda, or a named functor of the library
+            lam = f.functor_body(f.call_args(calls[0])[0]) if len(calls) == 1 and f.call_args(calls[0]) else None
+            ok = lam is not None and len(calls) == 1
             if ok:
-                lam = lams[0]
                 inv = [n for n in lam.calls() if (lam.callee_key(n) or '') == 'CallbackListBase::doForEachInvoke']
                 rets = lam.return_nodes()
                 ok = len(inv) == 1 and len(rets) == 1
@@ -297,7 +297,7 @@ def check_helpers(ctx, tu):
                     ok = ok and len(a) == 2 and root_var_id(path(lam, a[1])) == lam.params[0]['id']
                 if nm == 'forEachIf' and ok:
                     r = f.return_nodes()
-                    ok = len(r) == 1 and f.strip_all_casts(f.kids(r[0])[0]) == calls[0]
+                    ok = len(r) == 1 and f.value_source(f.kids(r[0])[0]) == calls[0]
             ctx.ob('C01.H', f, '%s visits through doForEachIf and %s' % (nm, 'never stops early' if nm == 'forEach' else 'returns the visitor\'s verdict'), ok)
     for f in tu.fns_named('CallbackListBase::doForEachInvoke'):
         calls = [n for n in f.calls() if f.nodes[n].get('op') == '()' or f.nodes[n].get('c', 0) == -1]
